@@ -7,6 +7,7 @@ package syntax
 
 import (
 	"fmt"
+	"sort"
 	"strconv"
 )
 
@@ -137,7 +138,20 @@ func (ref *RefExp) updateForks(fork map[*CallStm]CollectionIndex) (*RefExp, erro
 	}
 	var errs ErrorList
 	if len(ref.Forks) > 0 {
-		for src, j := range fork {
+		// Visit the calls in a repeatable order, so that the errors are
+		// reported in the same order on every run.
+		srcs := make([]*CallStm, 0, len(fork))
+		for src := range fork {
+			srcs = append(srcs, src)
+		}
+		sort.Slice(srcs, func(a, b int) bool {
+			if srcs[a].Id != srcs[b].Id {
+				return srcs[a].Id < srcs[b].Id
+			}
+			return srcs[a].DecId < srcs[b].DecId
+		})
+		for _, src := range srcs {
+			j := fork[src]
 			if i, ok := ref.Forks[src]; ok {
 				if i.IndexSource() != nil {
 					if j.IndexSource() == nil {
